@@ -1578,9 +1578,10 @@ class Interp:
 
     # -------------------------------------------------------- comprehension
     def _comp(self, kind, n, elt_nodes, frame, live):
-        if kind in ("list", "dict", "gen") and len(n.generators) == 1 and \
-                not n.generators[0].ifs:
-            # small literal iteration space: the literal it denotes (exact)
+        if kind in ("list", "dict", "gen") and len(n.generators) == 1:
+            # small literal iteration space: the literal it denotes (exact);
+            # filters are allowed when they are decided for every item (a
+            # table search: [v for k, v in TABLE if k == key])
             g = n.generators[0]
             n0 = len(self.events)
             it = self.unname(self.eval(g.iter, frame, live))
@@ -1588,13 +1589,26 @@ class Interp:
             if items is not None and 0 < len(items) <= 8:
                 saved_env = dict(frame.env)
                 out = []
+                decided = True
                 for x in items:
                     self.assign(g.target, x, frame, live, n)
+                    keep = True
+                    for c in g.ifs:
+                        cc = self.as_cond(self.eval(c, frame, live))
+                        if not tm.is_const(cc):
+                            decided = False
+                            break
+                        keep = keep and bool(tm.const_val(cc))
+                    if not decided:
+                        break
+                    if not keep:
+                        continue
                     vals = [self.eval(e, frame, live) for e in elt_nodes]
                     out.append(vals[0] if len(vals) == 1 else tuple(vals))
                 frame.env = saved_env
-                return T("dict", *out) if kind == "dict" else \
-                    T("list", *out)
+                if decided:
+                    return T("dict", *out) if kind == "dict" else \
+                        T("list", *out)
             del self.events[n0:]
         saved_env = dict(frame.env)
         loops = []
@@ -1691,6 +1705,17 @@ class Interp:
                 return args[1] if len(args) == 2 else NONE
             if hit is not None:
                 return hit
+        if fn.op == "global" and fn.args[0] == "builtins.next" and \
+                not kwargs and len(args) in (1, 2):
+            # next(<completely known sequence>[, default]): a table search
+            # written as next((v for k, v in TABLE if k == key), default)
+            seq = self.unname(args[0])
+            if seq.op in ("list", "tuple") and not any(
+                    x.op == "star" for x in seq.args):
+                if seq.args:
+                    return seq.args[0]
+                if len(args) == 2:
+                    return args[1]
         if fn.op == "global" and fn.args[0] == "builtins.getattr" and \
                 not kwargs and len(args) in (2, 3) and \
                 tm.is_const(args[1]) and \
